@@ -10,7 +10,11 @@
 
 package store
 
-import "github.com/douban/gobeansdb/utils"
+import (
+	"unsafe"
+
+	"github.com/douban/gobeansdb/utils"
+)
 
 // ---------- helpers recognised by the translator ----------
 
@@ -35,6 +39,19 @@ func exists(lo, hi int, p func(i int) bool) bool {
 // modifies designators: all(p) = every field of *p, elems(s) = the elements of slice/array/map s
 func all(x interface{}) bool   { return true }
 func elems(x interface{}) bool { return true }
+
+// fresh(p) in a postcondition: p was allocated by this call
+func fresh(x interface{}) bool { return true }
+
+// sameArray: the two slices are views of the same underlying array (the translator compares the
+// array identities; natively: overlapping capacity ranges)
+func sameArray(a, b []byte) bool {
+	if cap(a) == 0 || cap(b) == 0 {
+		return false
+	}
+	pa, pb := uintptr(unsafe.Pointer(&a[:1][0])), uintptr(unsafe.Pointer(&b[:1][0]))
+	return pa < pb+uintptr(cap(b)) && pb < pa+uintptr(cap(a))
+}
 
 // ---------- C16: hashes ----------
 
@@ -164,7 +181,7 @@ func lemmaCRCStep(c uint32, b byte) bool {
 //@ func newCrc32
 //@   props C16 C09
 //@   ints bv
-//@   ensures result0 != nil && result0.crc == 0xffffffff
+//@   ensures fresh(result0) && result0.crc == 0xffffffff
 
 //@ func (h *crc32) write
 //@   props C16 C09
@@ -351,3 +368,72 @@ func confTreeOK() bool {
 //@   ensures ki.KeyIsPath && err == nil && len(ki.StringKey) >= Conf.TreeDepth ==> ki.BucketID == specBucket(ki.KeyHash, Conf.TreeDepth) && 0 <= ki.BucketID && ki.BucketID < Conf.NumBucket
 //@   ensures ki.KeyIsPath && err == nil ==> len(ki.KeyPath) == len(ki.StringKey)
 //@   loop 1 unroll
+
+// CRC stored in a record: over header[4:24], key, value, with init/final complement
+func specRecordCRC(h20, key, val []byte) uint32 {
+	c := ^uint32(0)
+	c = specCRCFold(c, h20, len(h20))
+	c = specCRCFold(c, key, len(key))
+	c = specCRCFold(c, val, len(val))
+	return ^c
+}
+
+//@ func wrapRecord
+//@   props C09
+//@   ints bv
+//@   requires rec != nil && rec.Payload != nil && len(rec.Key) <= 255 && len(rec.Payload.Body) < 1<<31
+//@   modifies rec.Payload.RecSize
+//@   ensures fresh(result0) && result0.rec == rec && result0.ksz == uint32(len(rec.Key)) && result0.vsz == uint32(len(rec.Payload.Body))
+//@   ensures rec.Payload.RecSize == specPadded(uint32(24+len(rec.Key)+len(rec.Payload.Body)))
+
+//@ func (wrec *WriteRecord) getCRC
+//@   props C09 C16
+//@   ints bv
+//@   requires wrec.rec != nil && wrec.rec.Payload != nil
+//@   ensures result0 == specRecordCRC(wrec.header[4:], wrec.rec.Key, wrec.rec.Payload.Body)
+
+//@ func (wrec *WriteRecord) encodeHeader
+//@   props C09
+//@   ints bv
+//@   requires wrec.rec != nil && wrec.rec.Payload != nil
+//@   requires !sameArray(wrec.rec.Key, wrec.header[:]) && !sameArray(wrec.rec.Payload.Body, wrec.header[:])
+//@   modifies wrec.header
+//@   ensures le32(wrec.header[:], 4) == wrec.rec.Payload.TS && le32(wrec.header[:], 8) == wrec.rec.Payload.Flag
+//@   ensures le32(wrec.header[:], 12) == uint32(wrec.rec.Payload.Ver) && le32(wrec.header[:], 16) == wrec.ksz && le32(wrec.header[:], 20) == wrec.vsz
+//@   ensures le32(wrec.header[:], 0) == specRecordCRC(wrec.header[4:], wrec.rec.Key, wrec.rec.Payload.Body)
+
+//@ func decodeHeader
+//@   props C09
+//@   ints bv
+//@   requires wrec != nil && wrec.rec != nil && wrec.rec.Payload != nil && len(h) >= 24
+//@   modifies wrec.crc, wrec.ksz, wrec.vsz, wrec.rec.Payload.TS, wrec.rec.Payload.Flag, wrec.rec.Payload.Ver
+//@   ensures err == nil
+//@   ensures wrec.crc == le32(h, 0) && wrec.rec.Payload.TS == le32(h, 4) && wrec.rec.Payload.Flag == le32(h, 8)
+//@   ensures wrec.rec.Payload.Ver == int32(le32(h, 12)) && wrec.ksz == le32(h, 16) && wrec.vsz == le32(h, 20)
+
+//@ func (wrec *WriteRecord) decodeHeader
+//@   props C09
+//@   ints bv
+//@   requires wrec.rec != nil && wrec.rec.Payload != nil
+//@   modifies wrec.crc, wrec.ksz, wrec.vsz, wrec.rec.Payload.TS, wrec.rec.Payload.Flag, wrec.rec.Payload.Ver
+//@   ensures err == nil
+//@   ensures wrec.crc == le32(wrec.header[:], 0) && wrec.rec.Payload.TS == le32(wrec.header[:], 4) && wrec.rec.Payload.Flag == le32(wrec.header[:], 8)
+//@   ensures wrec.rec.Payload.Ver == int32(le32(wrec.header[:], 12)) && wrec.ksz == le32(wrec.header[:], 16) && wrec.vsz == le32(wrec.header[:], 20)
+
+// lemma (ghost code): decoding an encoded header gives back every field, and the decoded CRC
+// is the CRC of the record — the header round trip of C09.
+func lemmaHeaderRoundTrip(wrec *WriteRecord) bool {
+	ts, flag, ver, ksz, vsz := wrec.rec.Payload.TS, wrec.rec.Payload.Flag, wrec.rec.Payload.Ver, wrec.ksz, wrec.vsz
+	wrec.encodeHeader()
+	wrec.decodeHeader()
+	return wrec.rec.Payload.TS == ts && wrec.rec.Payload.Flag == flag && wrec.rec.Payload.Ver == ver &&
+		wrec.ksz == ksz && wrec.vsz == vsz && wrec.crc == wrec.getCRC()
+}
+
+//@ func lemmaHeaderRoundTrip
+//@   props C09
+//@   ints bv
+//@   requires wrec != nil && wrec.rec != nil && wrec.rec.Payload != nil
+//@   requires !sameArray(wrec.rec.Key, wrec.header[:]) && !sameArray(wrec.rec.Payload.Body, wrec.header[:])
+//@   modifies wrec.header, wrec.crc, wrec.ksz, wrec.vsz, wrec.rec.Payload.TS, wrec.rec.Payload.Flag, wrec.rec.Payload.Ver
+//@   ensures result0
